@@ -568,7 +568,11 @@ mod inner {
         #[cfg(feature = "autocomplete")]
         /// check if bpaf tries to complete last consumed element
         pub(crate) fn touching_last_remove(&self) -> bool {
-            self.comp.is_some() && self.items.len() - 1 == self.current.unwrap_or(usize::MAX)
+            // an empty command line has no last item to touch
+            self.comp.is_some()
+                && self
+                    .current
+                    .map_or(false, |cur| cur + 1 == self.items.len())
         }
 
         #[cfg(feature = "autocomplete")]
